@@ -261,6 +261,13 @@ class CodecScenario:
             return a
         if d == "isinstance" and len(args) == 2:
             return self._isinstance(args[0], args[1])
+        if d == "callable" and len(args) == 1:
+            a = args[0]
+            if isinstance(a, R):
+                return K(a.kind in ("func", "builtinfunc", "boundmethod", "cls", "td", "callable_obj"))
+            if isinstance(a, K):
+                return K(False)
+            return None
         if d == "type" and len(args) == 1:
             a = args[0]
             return S("kind:" + (a.kind if isinstance(a, R) else type(a).__name__))
